@@ -86,6 +86,33 @@ int main(int argc, char** argv) {
         if (auto* rt = ti.load_root_ptr()) { rt->destroy(); delete rt; ti.store_root_ptr(nullptr); }
         nsplit++;
     }
-    leave(tok); fprintf(stderr, "%ld pairs over %zu tuples, %ld split cases\n", n, D.size(), nsplit);
+    // (g) side decision of an INTERIOR split: a full interior root (15 pivots: 7 small fillers, the middle pivot f that is pushed up, 7 large
+    //     fillers) receives the child for pivot t through interior_split(); the child must end up in the left half iff t < f
+    long nisplit = 0;
+    for (auto& t : D) for (auto& f : D) {
+        if (t.s[0] != 1 || f.s[0] != 1 || t.l == 0 || f.l == 0) continue;
+        if (memcmp(t.s, f.s, 8) == 0 && t.l == f.l) continue;
+        tree_instance ti; auto* in = new interior_node(); in->init_interior(); in->set_version_root(true);
+        std::vector<border_node*> kids; for (int i = 0; i < 17; i++) { auto* b = new border_node(); b->init_border(); kids.push_back(b); }
+        for (int i = 0; i < 15; i++) {
+            std::uint64_t ks = 0; int kl = 2; unsigned char* p = (unsigned char*)&ks;
+            if (i < 7) { p[0] = 0; p[1] = (unsigned char)(i + 1); } else if (i == 7) { ks = slice(f); kl = f.l; } else { p[0] = 2; p[1] = (unsigned char)(i + 1); }
+            in->set_key(i, ks, (key_length_type)kl);
+        }
+        for (int i = 0; i < 16; i++) { in->set_child_at(i, kids[i]); kids[i]->set_parent(in); kids[i]->set_version_root(false); }
+        in->set_n_keys(15); ti.store_root_ptr(in);
+        in->lock();
+        interior_split(&ti, in, kids[16], std::make_pair(slice(t), (key_length_type)t.l));
+        auto* nr = dynamic_cast<interior_node*>(ti.load_root_ptr()); bool ok = nr != nullptr && nr != in && nr->get_n_keys() == 1 && nr->get_child_at(0) == in;
+        bool left = false, right = false, pivotok = false;
+        if (ok) { auto* rh = dynamic_cast<interior_node*>(nr->get_child_at(1)); pivotok = nr->get_key_slice_at(0) == slice(f) && nr->get_key_length_at(0) == f.l;
+            for (int c = 0; c <= in->get_n_keys(); c++) if (in->get_child_at(c) == kids[16]) left = true;
+            if (rh) for (int c = 0; c <= rh->get_n_keys(); c++) if (rh->get_child_at(c) == kids[16]) right = true;
+            left = left && kids[16]->get_parent() == in; right = right && kids[16]->get_parent() == rh; }
+        printf("{\"op\":\"isplit\",\"t\":%s,\"e\":%s,\"ok\":%s,\"pivotok\":%s,\"left\":%s,\"right\":%s}\n", tj(t).c_str(), tj(f).c_str(), vh::jb(ok), vh::jb(pivotok), vh::jb(left), vh::jb(right));
+        if (auto* rt = ti.load_root_ptr()) { rt->destroy(); delete rt; ti.store_root_ptr(nullptr); }
+        nisplit++;
+    }
+    leave(tok); fprintf(stderr, "%ld pairs over %zu tuples, %ld split cases, %ld interior split cases\n", n, D.size(), nsplit, nisplit);
     return 0;
 }
